@@ -27,6 +27,9 @@ Proof. exact legal_moves_permutation. Qed.
 Theorem C01_count_moves_rules : forall dfrc p, wf p = true -> rooks_ok p -> legal_consistent dfrc (abs p) = true ->
   count_moves p = N.of_nat (length (spec_moves (abs p))).
 Proof. exact count_moves_rules. Qed.
+Theorem C01_is_legal_rules : forall dfrc p m, wf p = true -> rooks_ok p -> legal_consistent dfrc (abs p) = true ->
+  is_legal p m = spec_legal (abs p) m.
+Proof. exact is_legal_rules. Qed.
 (* the hypotheses are an invariant of legal play: every move of the generated list leads to a position of the domain,
    and the model's successor is the rules' successor *)
 Theorem C01_domain_closed : forall K dfrc p m, wf p = true -> rooks_ok p -> legal_consistent dfrc (abs p) = true -> In m (legal_moves p) ->
@@ -71,7 +74,7 @@ Theorem C01_double_check_exact : forall dfrc p, wf p = true -> rooks_ok p -> leg
   NoDup (legal_moves p) /\ forall m, In m (legal_moves p) <-> In m (spec_moves (abs p)).
 Proof. exact double_check_exact. Qed.
 
-Print Assumptions C01_legal_moves_exact. Print Assumptions C01_permutation. Print Assumptions C01_count_moves_rules. Print Assumptions C01_domain_closed.
+Print Assumptions C01_is_legal_rules. Print Assumptions C01_legal_moves_exact. Print Assumptions C01_permutation. Print Assumptions C01_count_moves_rules. Print Assumptions C01_domain_closed.
 Print Assumptions C01_double_check_exact.
 Print Assumptions C01_check_evasions_exact. Print Assumptions C01_check_evasions_nodup.
 Print Assumptions C01_split. Print Assumptions C01_into_appends. Print Assumptions C01_count.
